@@ -688,7 +688,11 @@ func account(c *kit.Ctx, tr *Trace18, o *simOutcome) {
 	c.Eval(kit.Hash64([]byte(o.sim.LogHash+fmt.Sprint(tr.Tasks))), o.sim.Switches > 0)
 	c.Note("package_state", fmt.Sprintf("%d registered package-level variables, %d words reachable", o.sim.StateVars, o.sim.StateWords))
 	pairs := pairsOf(o.sim.Log)
-	c.Count("site_pairs_adjacent_across_a_switch(sum over runs)", len(pairs))
+	for pr := range pairs {
+		c.Distinct("site_pairs_adjacent_across_a_switch", uint64(uint32(pr[0]))<<32|uint64(uint32(pr[1])))
+		c.Distinct("sites_switched_at", uint64(uint32(pr[0])))
+	}
+	c.Distinct("switch_log_hashes", kit.Hash64([]byte(o.sim.LogHash)))
 	if c.Run < 2 {
 		c.Sample(map[string]interface{}{"tasks": tr.Tasks, "mode": tr.Sched.Mode, "yields": o.sim.Yields, "switches": o.sim.Switches, "log_hash": o.sim.LogHash})
 	}
